@@ -5,7 +5,7 @@
 //! rebuilds the top-level index spaces and assigns every index a provenance term.
 
 use serde::Serialize;
-use std::collections::BTreeMap;
+use std::collections::{BTreeMap, BTreeSet};
 use wasmparser::component_types::*;
 use wasmparser::types::TypesRef;
 use wasmparser::{
@@ -83,6 +83,11 @@ pub struct Decoded {
     pub export_types: BTreeMap<String, String>,
     /// order of definitions: a coarse trace of top-level items in emission order
     pub emission: Vec<String>,
+    /// for every instance import: member name -> canonical type of the member
+    pub import_members: BTreeMap<String, BTreeMap<String, String>>,
+    /// for every instance import: the other imports whose exported types it refers to
+    /// (type identity in the reference validator)
+    pub import_deps: BTreeMap<String, BTreeSet<String>>,
 }
 
 #[derive(Default)]
@@ -298,7 +303,53 @@ fn decode_with(bytes: &[u8], siblings: Option<&dyn Fn(&Prov) -> Prov>) -> Result
             d.export_types.insert(name.clone(), canon_entity(tr, &e));
         }
     }
+    let names: Vec<String> = d.imports.iter().map(|(n, _)| n.clone()).collect();
+    let (members, deps, _) = import_structure_of(tr, &names);
+    d.import_members = members;
+    d.import_deps = deps;
     Ok(d)
+}
+
+/// Members of every top-level instance import and the dependencies between imports: import B
+/// depends on import A when a type member of B refers to (is `eq` to, possibly through a chain
+/// of re-exports) a type that A's instance type creates.
+pub type ImportStructure = (BTreeMap<String, BTreeMap<String, String>>, BTreeMap<String, BTreeSet<String>>, BTreeMap<String, BTreeMap<String, (String, String)>>);
+
+pub fn import_structure(bytes: &[u8], names: &[String]) -> Result<ImportStructure, String> {
+    let types = Validator::new_with_features(WasmFeatures::all())
+        .validate_all(bytes)
+        .map_err(|e| format!("reference validator rejects the component: {e}"))?;
+    Ok(import_structure_of(types.as_ref(), names))
+}
+
+fn import_structure_of(tr: TypesRef<'_>, names: &[String]) -> ImportStructure {
+    let mut members: BTreeMap<String, BTreeMap<String, String>> = BTreeMap::new();
+    let mut deps: BTreeMap<String, BTreeSet<String>> = BTreeMap::new();
+    // import -> member -> (import, member) of the type it refers to
+    let mut uses: BTreeMap<String, BTreeMap<String, (String, String)>> = BTreeMap::new();
+    // created type id -> (import, member) that first created it
+    let mut owner: Vec<(ComponentAnyTypeId, String, String)> = Vec::new();
+    for name in names {
+        let Some(ComponentEntityType::Instance(id)) = tr.component_entity_type_of_import(name) else { continue };
+        let Some(it) = tr.get(id) else { continue };
+        let mut m = BTreeMap::new();
+        let mut dset = BTreeSet::new();
+        for (en, ee) in it.exports.iter() {
+            m.insert(en.clone(), canon_entity(tr, ee));
+            if let ComponentEntityType::Type { referenced, created } = ee {
+                if let Some((_, o, om)) = owner.iter().find(|(c, o, _)| c == referenced && o != name) {
+                    dset.insert(o.clone());
+                    uses.entry(name.clone()).or_default().insert(en.clone(), (o.clone(), om.clone()));
+                }
+                if !owner.iter().any(|(c, _, _)| c == created) {
+                    owner.push((*created, name.clone(), en.clone()));
+                }
+            }
+        }
+        members.insert(name.clone(), m);
+        deps.insert(name.clone(), dset);
+    }
+    (members, deps, uses)
 }
 
 // ---------------------------------------------------------------- canonical printer (E3)
